@@ -235,8 +235,8 @@ class Ctx:
         if i >= self.n:
             return -1
         c = self.cps[i]
-        if c == 10 and node.a:
-            return -1
+        if c == 10:
+            return -1           # no bracket expression matches a newline under REG_NEWLINE (repair of F11b)
         inset = self.brk_in(node.b, c)
         if inset != bool(node.a):
             return i + 1
@@ -417,10 +417,11 @@ class Ctx:
         yield i, caps
 
 
-def search_prio(root, ctx):
-    """first match in the engine's order: leftmost start, then backtracking priority.
-    returns (start, end, caps) or None"""
-    for s in range(ctx.n + 1 if ctx.n else 0):     # regexec() also tries the position of the terminating NUL of a non-empty string
+def search_prio(root, ctx, start=0, line_mode=False):
+    """first match in the engine's order: leftmost start (>= start), then backtracking priority.
+    returns (start, end, caps) or None.  line_mode: ctx holds a line without its terminator and every
+    position 0..n is a candidate start (editor-level reference)."""
+    for s in range(start, ctx.n + 1 if (ctx.n or line_mode) else 0):     # regexec() also tries the position of the terminating NUL of a non-empty string
         for e, caps in ctx.prio(root, s, {}):
             return s, e, caps
     return None
